@@ -103,6 +103,8 @@ func (tc *templateChecker) checkTemplate(node ast.Node) {
 		return
 	case *ast.DataRefNode:
 		tc.visitKey(node.Key)
+	case *ast.FunctionNode:
+		tc.checkLoopFunc(node)
 	case *ast.HeaderParamNode:
 		panic(fmt.Errorf("unexpected {@param ...} tag found"))
 	}
@@ -262,6 +264,20 @@ func (tc *templateChecker) visitKey(key string) {
 		panic(fmt.Errorf("data ref %q not found. params: %v, let variables: %v",
 			key, tc.params, tc.letVars))
 	}
+}
+
+// checkLoopFunc ensures that index, isFirst and isLast are given the variable
+// of an enclosing loop: they read that loop's position, which nothing else binds.
+func (tc *templateChecker) checkLoopFunc(node *ast.FunctionNode) {
+	if node.Name != "index" && node.Name != "isFirst" && node.Name != "isLast" {
+		return
+	}
+	if len(node.Args) == 1 {
+		if ref, ok := node.Args[0].(*ast.DataRefNode); ok && len(ref.Access) == 0 && contains(tc.forVars, ref.Key) {
+			return
+		}
+	}
+	panic(fmt.Errorf("%v: the argument must be the variable of an enclosing loop", node.Name))
 }
 
 // boundByLoop reports whether the innermost binding of key is the variable of
